@@ -752,6 +752,11 @@ func (e *fnEnc) appendModel(c *blockCtx, in ssa.Instruction, cc *ssa.CallCommon)
 	// old prefix preserved
 	e.assert(T(SBool, fmt.Sprintf("(forall ((i Int)) (! (=> (and (<= 0 i) (< i %s)) (= (select %s (+ %s i)) (select %s (+ %s i)))) :pattern ((select %s (+ %s i)))))",
 		slLen(s).S, narr.S, no.S, sarr.S, slOff(s).S, narr.S, no.S)))
+	// the same fact triggered by any read of the new array (absolute index): the
+	// pattern above contains an addition, which the solvers' arithmetic
+	// normalisation can hide from e-matching
+	e.assert(T(SBool, fmt.Sprintf("(forall ((j Int)) (! (=> (and (<= %s j) (< j (+ %s %s))) (= (select %s j) (select %s (+ %s (- j %s))))) :pattern ((select %s j))))",
+		no.S, no.S, slLen(s).S, narr.S, sarr.S, slOff(s).S, no.S, narr.S)))
 	// appended elements
 	if n, ok := e.smallConstLen(cc.Args[1]); ok {
 		for j := 0; j < n; j++ {
